@@ -117,6 +117,12 @@ def step (st : St) (line : String) : St × String :=
     match now.toInt?, ttl.toInt? with
     | some n, some t => (st, s!"deadline={ColumnVerif.Store.writeTTL n t}")
     | _, _ => (st, "bad-op")
+  | ["putany", ty, idx, dec] =>
+    -- `Buffer.PutAny(Put, idx, <the integer of Go type ty>)`
+    match GoInt.parse ty, idx.toNat?, dec.toInt? with
+    | some t, some i, some v =>
+      if i < M32 ∧ t.holds v then ({ st with buf := st.buf.put ⟨opPut, i, putAnyInt t v⟩ }, "ok") else (st, "bad-op")
+    | _, _, _ => (st, "bad-op")
   | ["readany", hex] =>
     -- what an `int` / `uint` column makes of an operation value of any width (Reader.Int / Reader.Uint)
     match unhex hex with
